@@ -249,6 +249,8 @@ def call_strategy():
     # text in depth; here it is part of "one well-formed block per call")
     text = st.sampled_from([None, "hello", "feed move", "ümlaut ✓", "a b  c",
                             "retract\nM112", "pocket (rough) M30", "x\r\nG0 Z-5",
+                            # line breaks of every kind: a lone CR, LF CR, CR CR LF
+                            "tool\rM3 S9000", "a\n\rG28", "b\r\r\nM30",
                             # closing delimiters nested inside themselves
                             "pocket **// G1 X999 */", "a )) b (", "x ]] y [", "q }} r {"])
     axes = st.fixed_dictionaries({}, optional={"x": anyv, "y": anyv, "z": anyv})
